@@ -4,13 +4,13 @@
 # files the result under /verif/seeded/<id>-<n>/ (patch.diff, demo.py, notes.md, results.json)
 set -u
 ID=$1; N=$2
-SRC=/tmp/mut/$ID
-OUT=/verif/seeded/$ID-$N
+SRC=${MUTSRC:-/tmp/mut}/$ID
+OUT=/verif/seeded/$ID-${MUTTAG:-}$N
 [ -f $SRC/patch$N.diff ] || { echo "no patch $SRC/patch$N.diff"; exit 1; }
 mkdir -p $OUT
 WT=$(mktemp -d -u /tmp/confirm-wt-XXXXXX)
 git -C /repo worktree add -q --detach $WT HEAD
-sed "s#/tmp/wt/$ID#$WT#g" $SRC/demo$N.py > $WT/_demo.py
+sed "s#${MUTWT:-/tmp/wt}/$ID#$WT#g" $SRC/demo$N.py > $WT/_demo.py
 ( cd $WT && MPLBACKEND=Agg /venv/bin/python _demo.py > $OUT/demo_clean.log 2>&1 ); CLEAN=$?
 git -C $WT apply $SRC/patch$N.diff; APPLY=$?
 ( cd $WT && MPLBACKEND=Agg /venv/bin/python _demo.py > $OUT/demo_patched.log 2>&1 ); PATCHED=$?
